@@ -822,6 +822,14 @@ class ConfigurableReference:
       selector = import_manager.minimal_selector(self._configurable)
     else:
       selector = self.selector
+      if _REGISTRY.matching_selectors(selector) != [
+          self._configurable.selector
+      ]:
+        # A later registration made the name as written ambiguous: use the
+        # shortest name that resolves to the configurable now.
+        selector = _REGISTRY.minimal_selector(self._configurable.selector)
+        if self._configurable.is_method and '.' not in selector:
+          selector = '.'.join(self._configurable.selector.split('.')[-2:])
     scoped_selector = '/'.join([*self.scopes, selector])
     return '@{}{}'.format(scoped_selector, maybe_parens)
 
